@@ -84,39 +84,42 @@ def rule_transpose(ctx):
             ctx.holds('R1', '_get_axes_info: (positions, names) from per-item _get_axis_info')
         else:
             ctx.violated('R1', gi, 'return ' + s[:140], '_get_axes_info must return (positions, names) of every requested axis in the given order', node=p.node)
-    # swapaxes
+    # swapaxes: the permutation it hands to transpose, for every rank 1-4 and every pair of positions (negative ones included), evaluated on the
+    # syntax tree over concrete small integers (kind-level abstract interpretation; _get_axes_info passes integer positions through - C08-R1)
+    from .. import absint
     fi = ctx.fn(RS + 'swapaxes')
-    gai = ('call', ('attr', SELF, '_get_axes_info'), (('list', (P_('axis1'), P_('axis2'))),), ())
-    pos = ('item', gai, 0)
-    a1, a2 = ('item', pos, 0), ('item', pos, 1)
-    ev = run(ctx, fi)
-    for p in ret_paths(ev):
-        v = p.value
-        if not (v[0] == 'call' and T.call_name(v) == 'transpose' and (v[2][:1] == (SELF,) or T.call_receiver(v) == SELF)):
-            ctx.violated('R1', fi, 'return ' + T.show(v)[:120], 'swapaxes must delegate to transpose', node=p.node)
-            continue
-        # the appended value per branch
-        table = {}
-        for e in p.calls('append'):
-            i = None
-            conds = {}
-            for a, pol in e.guards:
-                if a[0] == 'cmp' and a[1] == '==' and a[2][0] == 'elem':
-                    i = a[2]
-                    conds[a[3]] = pol
-            val = e.a[2][0]
-            if conds.get(a1) is True:
-                table['axis1'] = val
-            elif conds.get(a2) is True:
-                table['axis2'] = val
-            elif conds.get(a1) is False and conds.get(a2) is False:
-                table['other'] = (val, i)
-        good = table.get('axis1') == a2 and table.get('axis2') == a1 and table.get('other') is not None and table['other'][0] == table['other'][1]
-        if not good:
-            ctx.violated('R1', fi, 'swapaxes permutation', 'the permutation must be the identity with the two resolved positions exchanged '
-                         '(got %s)' % {k: T.show(v if not isinstance(v, tuple) or v[0] != 'sub' else v)[:40] for k, v in table.items()}, node=p.node)
-        else:
-            ctx.holds('R1', 'swapaxes: identity with resolved axis1/axis2 exchanged, then transpose')
+    nsw = 0
+    bad = None
+    for ndim in range(1, 5):
+        for a1 in range(-ndim, ndim):
+            for a2 in range(-ndim, ndim):
+                ext = {'self._get_axes_info': lambda args, kw: (list(args[0]), [None] * len(args[0])),
+                       'transpose': lambda args, kw: ('PERM', list(args[1]) if len(args) > 1 else None),
+                       'self.transpose': lambda args, kw: ('PERM', list(args[0]) if args else None)}
+                it = absint.Interp(ext, {})
+                try:
+                    out = it.call_function(fi.node, ['SELF', a1, a2], {'self.ndim': ndim, 'self': 'SELF'})
+                except absint.Undecided as e:
+                    ctx.undecide('R1', 'swapaxes not evaluable: %s' % e)
+                    bad = 'undecided'
+                    break
+                except absint.Raised as e:
+                    out = ('RAISED', e.name)
+                want = list(range(ndim))
+                want[a1 % ndim], want[a2 % ndim] = want[a2 % ndim], want[a1 % ndim]
+                nsw += 1
+                if not (isinstance(out, tuple) and out[0] == 'PERM' and out[1] == want) and bad is None:
+                    bad = (ndim, a1, a2, out[1] if isinstance(out, tuple) else out, want)
+            if bad == 'undecided':
+                break
+        if bad == 'undecided':
+            break
+    if bad and bad != 'undecided':
+        ndim, a1, a2, got, want = bad
+        ctx.violated('R1', fi, 'swapaxes permutation', 'on a %d-d array swapaxes(%d, %d) hands the permutation %s to transpose, expected %s: a position counted from the end is '
+                     'compared with range(ndim) indices and never matches (silent no-op, or "repeated axis")' % (ndim, a1, a2, got, want), node=fi.node)
+    elif not bad:
+        ctx.holds('R1', 'swapaxes: identity with the two positions exchanged for every rank 1-4 and every pair of positions, negative included (%d cases)' % nsw)
     # rollaxis
     fi = ctx.fn(RS + 'rollaxis')
     ev = run(ctx, fi)
@@ -153,37 +156,83 @@ def rule_insert_remove(ctx):
     # ---- newaxis
     fi = ctx.fn(RS + 'newaxis')
     NAME, POS = P_('name'), P_('pos')
-    for minus1 in (False, True):
-        ev = run(ctx, fi, bind={'values': T.CONST_NONE}, facts={T.mkcmp('==', POS, const(-1)): minus1})
-        for p in ret_paths(ev):
-            v = p.value
-            pos = ('call', ('name', 'len'), (('attr', SELF, 'dims'),), ()) if minus1 else POS
-            if not is_cons(v):
-                ctx.violated('R2', fi, 'return ' + T.show(v)[:100], 'newaxis must build self._constructor(values, axes, **self.attrs)', node=p.node)
-                continue
-            vals, axes = v[2]
-            key = ('binop', '+', ('binop', '*', ('tuple', (('call', ('name', 'slice'), (T.CONST_NONE,), ()),)), pos), ('tuple', (('attr', ('name', 'np'), 'newaxis'),)))
-            if not (vals[0] == 'sub' and vals[1] in VAL and vals[2] == key):
-                ctx.violated('R2', fi, 'values = ' + T.show(vals)[:140], 'the singleton dimension must be inserted at `pos` in the values: '
-                             'values[(slice(None),)*pos + (np.newaxis,)]', node=p.node)
-                continue
-            ok = axes[0] == 'mut' and axes[2] == 'insert' and axes[3][0] == pos and axes[1] == ('call', ('attr', ('attr', SELF, 'axes'), 'copy'), (), ()) \
-                and axes[3][1][0] == 'call' and T.call_name(axes[3][1]) == 'Axis' and axes[3][1][2][1] == NAME
-            if not ok:
-                ctx.violated('R2', fi, 'axes = ' + T.show(axes)[:140], 'the new axis must be inserted at the same `pos` into a copy of the axes, under the given name', node=p.node)
-                continue
-            g = [pol for a, pol in p.guards if a == ('cmp', 'in', NAME, ('attr', SELF, 'dims'))]
-            if g != [False]:
-                ctx.violated('R2', fi, 'existing-name guard', 'newaxis must refuse a name that is already a dimension', node=p.node)
-                continue
-            if not attrs_ok(v):
-                ctx.violated('R4', fi, 'return', 'newaxis carries the metadata', node=p.node)
-                continue
-            ctx.holds('R2', 'newaxis pos=%s' % ('-1 -> len(dims)' if minus1 else 'pos'))
-    ev = run(ctx, fi, facts={T.mkcmp('is', P_('values'), T.CONST_NONE): False, T.mkcmp('==', POS, const(-1)): False})
+    from ..rules import int_eval, bool_eval
+    NDIM = ('call', ('name', 'len'), (('attr', SELF, 'dims'),), ())
+    ev = run(ctx, fi, bind={'values': T.CONST_NONE})
+    shapes = []          # (path, position term used for the values, position term used for the axes)
     for p in ret_paths(ev):
         v = p.value
-        if not (v[0] == 'call' and T.call_name(v) == 'repeat' and v[2][:1] == (P_('values'),) and T.kw(v, 'axis') == POS):
+        if not is_cons(v):
+            ctx.violated('R2', fi, 'return ' + T.show(v)[:100], 'newaxis must build self._constructor(values, axes, **self.attrs)', node=p.node)
+            continue
+        vals, axes = v[2]
+        key = vals[2] if vals[0] == 'sub' and vals[1] in VAL else None
+        okk = key is not None and key[0] == 'binop' and key[1] == '+' and key[3] == ('tuple', (('attr', ('name', 'np'), 'newaxis'),)) \
+            and key[2][0] == 'binop' and key[2][1] == '*' and key[2][2] == ('tuple', (('call', ('name', 'slice'), (T.CONST_NONE,), ()),))
+        if not okk:
+            ctx.violated('R2', fi, 'values = ' + T.show(vals)[:140], 'the singleton dimension must be inserted in the values by values[(slice(None),)*k + (np.newaxis,)]', node=p.node)
+            continue
+        vpos = key[2][3]
+        ok = axes[0] == 'mut' and axes[2] == 'insert' and axes[1] == ('call', ('attr', ('attr', SELF, 'axes'), 'copy'), (), ()) \
+            and axes[3][1][0] == 'call' and T.call_name(axes[3][1]) == 'Axis' and axes[3][1][2][1] == NAME
+        if not ok:
+            ctx.violated('R2', fi, 'axes = ' + T.show(axes)[:140], 'the new axis must be inserted into a copy of the axes, under the given name', node=p.node)
+            continue
+        g = [pol for a, pol in p.guards if a == ('cmp', 'in', NAME, ('attr', SELF, 'dims'))]
+        if g != [False]:
+            ctx.violated('R2', fi, 'existing-name guard', 'newaxis must refuse a name that is already a dimension', node=p.node)
+            continue
+        if not attrs_ok(v):
+            ctx.violated('R4', fi, 'return', 'newaxis carries the metadata', node=p.node)
+            continue
+        shapes.append((p, vpos, axes[3][0]))
+    # bounded check: for every array rank and every position (negative ones count from the end of the *new* array) the index given to NumPy and
+    # the list position given to Axes.insert denote the same slot
+    bad = None
+    covered = 0
+    for ndim in range(0, 5):
+        for pos in range(-ndim - 1, ndim + 1):
+            atoms = {POS: pos, NDIM: ndim, ('attr', SELF, 'ndim'): ndim}
+            for p, vpos, apos in shapes:
+                feas = True
+                for a, pol in p.guards:
+                    if T.contains(a, POS) and not any(x[0] == 'call' and T.dotted(x[1]) in ('type', 'isinstance') for x in T.subterms(a)):
+                        r = bool_eval(a, atoms)
+                        if r is None:
+                            feas = None
+                            break
+                        if r != pol:
+                            feas = False
+                            break
+                if feas is None:
+                    ctx.undecide('R2', 'newaxis: a guard on pos is not evaluable')
+                    return
+                if not feas:
+                    continue
+                kv, ka = int_eval(vpos, atoms), int_eval(apos, atoms)
+                if kv is None or ka is None:
+                    ctx.undecide('R2', 'newaxis: position terms %s / %s not evaluable' % (T.show(vpos), T.show(apos)))
+                    return
+                covered += 1
+                want = pos if pos >= 0 else ndim + 1 + pos
+                in_values = max(kv, 0)                                   # (slice(None),) * negative == ()
+                in_axes = min(ka, ndim) if ka >= 0 else max(ndim + ka, 0)    # list.insert semantics
+                if in_values > ndim:
+                    continue                                             # NumPy refuses: too many indices
+                if in_values != in_axes and bad is None:
+                    bad = (ndim, pos, in_values, in_axes, want)
+    if bad:
+        ndim, pos, iv, ia, want = bad
+        ctx.violated('R2', fi, 'newaxis position', 'on a %d-d array newaxis(pos=%d) inserts the singleton dimension at position %d of the values but the new Axis at position %d of '
+                     'the axes (a position counted from the end should denote slot %d in both): labels no longer belong to their data, or the constructor raises' % (ndim, pos, iv, ia, want), node=fi.node)
+    elif shapes:
+        ctx.holds('R2', 'newaxis: values and axes use the same slot for every rank 0-4 and every position, negative ones included (%d cases)' % covered)
+    ev = run(ctx, fi, facts={T.mkcmp('is', P_('values'), T.CONST_NONE): False})
+    for p in ret_paths(ev):
+        v = p.value
+        recv = T.call_receiver(v) if v[0] == 'call' else None
+        inserted = [x[3][0] for x in T.subterms(recv) if x[0] == 'mut' and x[2] == 'insert'] if recv else []
+        if not (v[0] == 'call' and T.call_name(v) == 'repeat' and v[2][:1] == (P_('values'),) and T.kw(v, 'axis') is not None and T.kw(v, 'axis') in inserted):
             ctx.violated('R2', fi, 'return ' + T.show(v)[:120], 'with values= the new axis must be repeated along the inserted position', node=p.node)
     # ---- squeeze
     fi = ctx.fn(RS + 'squeeze')
